@@ -6,7 +6,7 @@
 use crate::util::*;
 use rosu_pp::model::hit_object::HitObject;
 #[cfg(not(verif_degraded))]
-use rosu_pp::verif::{sort_osu_legacy, LimitedQueue, TandemSorter};
+use rosu_pp::verif::{sort_csharp, sort_osu_legacy, LimitedQueue, TandemSorter};
 use rosu_pp::Beatmap;
 use serde_json::{json, Value};
 use std::collections::BTreeMap;
@@ -92,6 +92,30 @@ pub fn main(args: &[String]) -> i32 {
                         if !model_err.is_empty() || ids != model_ids {
                             // the code differs from its transcription: benign for the property when it still sorts
                             bad("legacysort:conformance", sorted && is_perm, format!("{model_ids:?} err '{model_err}'"), format!("{ids:?}"));
+                        }
+                    }
+                }
+            }
+            "csharpsort" => {
+                let mut v: Vec<(i64, i64)> = keys.iter().enumerate().map(|(p, k)| (*k, p as i64 + 1)).collect();
+                let r = guarded(|| {
+                    sort_csharp(&mut v, |a, b| a.0.cmp(&b.0));
+                    v.clone()
+                });
+                let model_ids = ints(&sc["out"]);
+                match r {
+                    Err(p) => bad("csharpsort:panic", false, "no panic".into(), p),
+                    Ok(got) => {
+                        let ids: Vec<i64> = got.iter().map(|g| g.1).collect();
+                        let sorted = got.windows(2).all(|w| w[0].0 <= w[1].0);
+                        let mut perm = ids.clone();
+                        perm.sort_unstable();
+                        let is_perm = perm == (1..=keys.len() as i64).collect::<Vec<_>>();
+                        if !(sorted && is_perm) {
+                            bad("csharpsort:not_a_sorted_permutation", false, "sorted permutation".into(), format!("{got:?}"));
+                        } else if ids != model_ids {
+                            // another order among equal keys than the transcription: still what the property needs
+                            bad("csharpsort:conformance", true, format!("{model_ids:?}"), format!("{ids:?}"));
                         }
                     }
                 }
